@@ -377,7 +377,13 @@ public:
     {
         // Exactly 0 is ok (returns -inf)
         const bool u = a.maybe_nan || a.lower() < 0.0f;
-        return Interval(boost::numeric::log(a.i), u);
+        auto i = boost::numeric::log(a.i);
+        // Boost returns NaN bounds for log([0, 0]); the point value is -inf
+        if (std::isnan(i.lower()) || std::isnan(i.upper())) {
+            i = I(std::isnan(i.lower()) ? -INFINITY : i.lower(),
+                  std::isnan(i.upper()) ?  INFINITY : i.upper());
+        }
+        return Interval(i, u);
     }
 
     static Interval abs(const Interval& a)
